@@ -33,6 +33,9 @@ TYPO = ['"quoted"', "'single'", "it's", "don't", "James'", "wait...", "...so", "
         "word…", "…word", "“…and", "a … b", "wait... (so", "and... [x]", "hmm... \"q\"",
         # a closing quote BEFORE the sentence punctuation (the sentence-end rule must know the converted character too)
         '"promising".', "'fine'!", '"why"?', "(\"ok\").",
+        # abbreviations and titles directly next to a quote (whatever the sentence heuristic thinks of them, it must think the
+        # same of the straight and of the curly spelling)
+        '"Dr.', "'Mrs.", '"Prof.', 'vs."', '("Mr.', '"etc."', "'approx.'", '"e.g.', "Dr.'s", '"St.',
         # not an HTML tag (white space after '<' is missing, but the quoted '>' ends it early): prose with quotes
         '<see the "docs > api" page>']
 CODE_CORE = ["`x`", "`a b`", "`foo(bar, baz)`", "`--flag value`", "`*not em*`", "`<tag attr>`", "`it's \"q\"...`",
